@@ -6,8 +6,8 @@ CONSTANTS
   FixNonce = TRUE
   PairSet <- Pairs3
   LenSet = {1, 2, 3}
-  MaxCountSet = {0, 1, 2}
-  MaxVerifySet = {0, 1, 2, 3}
+  MaxCountSet <- CountsX
+  MaxVerifySet <- VerifiesX
   MaxSends = 100
   Depth = 16
 INVARIANTS Emit
